@@ -54,7 +54,7 @@ def cases(ctx):
                 if ctx.mine(idx):
                     yield _probe(drop, extra, offset, sf)
                 idx += 1
-    for _ in range(ctx.budget(3000, 200000)):
+    for _ in range(ctx.budget(9000, 300000)):
         yield gen(rng)
 
 
